@@ -41,30 +41,92 @@ def string_table(arms, owner, T):
     return tbl, default
 
 
+def _walk(node, f):
+    if isinstance(node, tuple):
+        f(node)
+        for x in node:
+            _walk(x, f)
+    elif isinstance(node, list):
+        for x in node:
+            _walk(x, f)
+
+
+def _string_match(fn, owner, T):
+    """the unique `match <expr> { "lit" => T![..], ..., _ => default }` of a function (t_lexer AST);
+    returns ([(lit, Variant)], default arm body)"""
+    found = []
+
+    def visit(n):
+        if n and n[0] == "match" and any(p[0] == "str" for pats, _g, _b, _l in n[2] for p in pats):
+            found.append(n)
+    _walk(fn["body"], visit)
+    if len(found) != 1:
+        raise TranslateError("%s: expected exactly one match on string literals, found %d" % (owner, len(found)))
+    arms = found[0][2]
+    if arms[-1][0] != [("wild",)] or arms[-1][1] is not None:
+        raise TranslateError("%s: the last arm of the string match must be `_ =>`" % owner)
+    tbl, seen = [], set()
+    for pats, guard, body, line in arms[:-1]:
+        st = body[1]
+        if guard is not None or len(pats) != 1 or pats[0][0] != "str" or len(st) != 1 or st[0][0] != "expr" \
+                or st[0][1][0] != "tmac":
+            raise TranslateError("%s:%d: unsupported arm (want \"lit\" => T![..])" % (owner, line))
+        key = st[0][1][1]
+        if key not in T:
+            raise TranslateError("%s: T![%s] unknown" % (owner, key))
+        if pats[0][1] in seen:
+            raise TranslateError("%s: duplicate key %r" % (owner, pats[0][1]))
+        seen.add(pats[0][1])
+        tbl.append((pats[0][1], T[key]))
+    return tbl, arms[-1][2][1]
+
+
 def parse(repo):
+    """robust against renaming of locals: works on the AST of tools/translate/t_lexer.py"""
+    import t_lexer
     tok = t_tokens.parse(repo)
     T = tok["T"]
     src = cut_tests(strip_comments(read(repo, "crates/syntax/src/lexer.rs")))
-    kw, d1 = string_table(match_arms(fn_body(src, "identifier"), "identifier", "ident"), "identifier", T)
-    if not re.fullmatch(r"_ =>\s*TokenKind::Id\s*,?", d1):
-        raise TranslateError("identifier: default arm must be TokenKind::Id, got %r" % d1)
-    bang, d2 = string_table(match_arms(fn_body(src, "bangoperator"), "bangoperator", "ident"), "bangoperator", T)
-    if not re.fullmatch(r'_ =>\s*self\.error\("Unknown operator"\)\s*,?', d2):
-        raise TranslateError("bangoperator: unexpected default arm %r" % d2)
-    pp, d3 = string_table(match_arms(fn_body(src, "preprocessor"), "preprocessor", "ident"), "preprocessor", T)
-    if not re.fullmatch(r"_ =>\s*\{\s*self\.s\.jump\(ident_start\);\s*T!\[#\]\s*\}\s*,?", d3):
-        raise TranslateError("preprocessor: unexpected default arm %r" % d3)
-    # single-char punctuation arms of next_token:  Some('x') => T![..],
-    nt = fn_body(src, "next_token")
+    fns, _structs = t_lexer.Parser(t_lexer.tokenize(src)).items()
+    by = {f["name"]: f for f in fns}
+    for need in ("identifier", "bangoperator", "preprocessor", "next_token"):
+        if need not in by:
+            raise TranslateError("fn %s not found" % need)
+    kw, d1 = _string_match(by["identifier"], "identifier", T)
+    if not (len(d1) == 1 and d1[0][0] == "expr" and d1[0][1][0] == "path" and d1[0][1][1] == ["TokenKind", "Id"]):
+        raise TranslateError("identifier: default arm must be TokenKind::Id")
+    bang, d2 = _string_match(by["bangoperator"], "bangoperator", T)
+    ok2 = (len(d2) == 1 and d2[0][0] == "expr" and d2[0][1][0] == "method" and d2[0][1][2] == "error"
+           and d2[0][1][4] == [("str", "Unknown operator")])
+    if not ok2:
+        raise TranslateError("bangoperator: unexpected default arm")
+    pp, d3 = _string_match(by["preprocessor"], "preprocessor", T)
+    ok3 = (len(d3) == 2 and d3[0][0] == "expr" and d3[0][1][0] == "method" and d3[0][1][2] == "jump"
+           and d3[1][0] == "expr" and d3[1][1][0] == "tmac" and d3[1][1][1] == "#")
+    if not ok3:
+        raise TranslateError("preprocessor: unexpected default arm (want `{ self.s.jump(..); T![#] }`)")
+    # single-char punctuation arms of next_token:  Some('x') => T![..]   (no guard)
     punct = []
-    for m in re.finditer(r"Some\('(\\.|[^\\'])'\)\s*=>\s*T!\[(.+?)\]\s*,", nt):
-        ch = unescape_rust_str(m.group(1))
-        key = m.group(2).strip()
-        if key not in T:
-            raise TranslateError("next_token: T![%s] unknown" % key)
-        punct.append((ch, T[key]))
-    msgs = sorted(set(unescape_rust_str(x) for x in re.findall(r'self\.error\(\s*"((?:[^"\\]|\\.)*)"\s*\)', src)))
-    return {"kw": kw, "bang": bang, "pp": pp, "punct": punct, "msgs": msgs, "tok": tok}
+
+    def visit(n):
+        if n and n[0] == "match":
+            for pats, guard, body, line in n[2]:
+                st = body[1]
+                if guard is None and len(pats) == 1 and pats[0][0] == "some" and pats[0][1][0] == "char" \
+                        and len(st) == 1 and st[0][0] == "expr" and st[0][1][0] == "tmac":
+                    key = st[0][1][1]
+                    if key not in T:
+                        raise TranslateError("next_token: T![%s] unknown" % key)
+                    punct.append((pats[0][1][1], T[key]))
+    _walk(by["next_token"]["body"], visit)
+    msgs = set()
+
+    def visit_err(n):
+        if n and n[0] == "method" and n[2] == "error" and len(n[4]) == 1 and n[4][0][0] == "str":
+            msgs.add(n[4][0][1])
+    for f in fns:
+        _walk(f["body"], visit_err)
+    return {"kw": kw, "bang": bang, "pp": pp, "punct": punct, "msgs": sorted(msgs), "tok": tok}
 
 
 def translate(repo):
